@@ -92,81 +92,86 @@ def _arms(fn, gm):
 
 
 def r2(c):
+    from sa import symexec
     repo = c.repo
-    c.rule("C15.R2", "role consistency in _execute_direct_pair and _execute_indirect, in each arm of rule.direct_order: the object built from rule.match_left is the handler's "
-                     "first argument and the one from rule.match_right its second; the object built around `device` is the one merged into the local DTO, the one around the "
-                     "other device into the connected DTO; Pair(local=<device dto>, connected=<other dto>, device=<other device>)")
+    c.rule("C15.R2", "role consistency in _execute_direct_pair and _execute_indirect, on every path (symbolic enumeration; each path decides rule.direct_order): the handler is called "
+                     "as (left, right) — its first argument is the peer built from rule.match_left, its second the one from rule.match_right — and the peer built around `device` "
+                     "is the left one exactly when direct_order holds; the peer around `device` is merged (with the session) into Pair.local, the other peer into Pair.connected, "
+                     "and Pair.device is that other peer's device")
     m = repo.module(EXE)
-    for fname, other in (("MeshExecutor._execute_direct_pair", "neighbor_device"), ("MeshExecutor._execute_indirect", "connected_device")):
+    CT = ("DirectPeer", "IndirectPeer")
+    for fname in ("MeshExecutor._execute_direct_pair", "MeshExecutor._execute_indirect"):
         fn = repo.func(EXE, fname)
         c.count("functions")
         gm = GuardMap(fn)
-        pv = Provenance(fn)
-        pol = _arms(fn, gm)
-        ctors = []
-        for n in walk_no_nested(fn):
-            if isinstance(n, ast.Assign) and isinstance(n.targets[0], ast.Name) and isinstance(n.value, ast.Call) and call_name(n.value) in ("DirectPeer", "IndirectPeer") \
-                    and len(n.value.args) >= 2:
-                ctors.append((n.targets[0].id, norm(n.value.args[0]), norm(n.value.args[1]), pol(n), n))
         handlers = [x for x in calls_in(fn) if norm(x.func) == "rule.handler"]
-        if not ctors or len(handlers) != 2:
-            raise AnchorError(f"{fname}: expected peer constructions and 2 handler calls, found {len(ctors)}/{len(handlers)}")
-        # which variable wraps the local device (same in both arms)
-        dev_vars = {v for v, ms, dv, p, n in ctors if dv == "device"}
-        oth_vars = {v for v, ms, dv, p, n in ctors if dv == other}
-        ok = len(dev_vars) == 1 and len(oth_vars) == 1 and dev_vars != oth_vars
-        c.check("C15.R2", ok, repo.loc(m, fn), f"{fname}/device-vars", f"objects around `device` {sorted(dev_vars)} / around `{other}` {sorted(oth_vars)} are not one variable each", key_text="vars")
-        if not ok:
-            continue
-        dv, ov = list(dev_vars)[0], list(oth_vars)[0]
-        by_stmt = {id(n): (v, ms, d_, p) for v, ms, d_, p, n in ctors}
-
-        def built_from(arg, arm):
-            """match sides of the constructions reaching this handler argument (those made in the other arm of the same rule.direct_order test do not reach it)"""
-            out = set()
-            if isinstance(arg, ast.Name):
-                for d in pv.rd.defs(arg):
-                    if d.stmt is not None and id(d.stmt) in by_stmt:
-                        if by_stmt[id(d.stmt)][3] is (not arm):
-                            continue
-                        out.add(by_stmt[id(d.stmt)][1])
-                    else:
-                        out.add("?")
-            return out
-        for arm in (True, False):
-            hs = [h for h in handlers if pol(h) is arm]
-            okh = len(hs) == 1 and len(hs[0].args) >= 2
-            an = "direct" if arm else "reverse"
-            if not okh:
-                c.violated("C15.R2", repo.loc(m, fn), f"{fname}/arm[{an}]/handler-args", f"no single handler call in the {an} arm", key_text=f"handler-{arm}")
+        if not handlers:
+            raise AnchorError(f"{fname}: rule.handler(...) call not found")
+        lp = [l for l in gm.in_loop(handlers[0]) if isinstance(l, ast.For)]
+        region = lp[-1].body if lp else fn.body
+        env = G.GuardEnv(rename=lambda s_: {"rule.direct_order": "direct"}.get(s_, s_))
+        res = {True: {}, False: {}}
+        n_paths = 0
+        for p_ in symexec.paths(region, keep=("session",)):
+            f = G.And(*[(G.formula(t, env) if pol else G.Not(G.formula(t, env))) for t, pol in p_.conds])
+            if not G.satisfiable(f):
                 continue
-            h = hs[0]
-            sides = [built_from(h.args[0], arm), built_from(h.args[1], arm)]
-            c.check("C15.R2", sides == [{"rule.match_left"}, {"rule.match_right"}], repo.loc(m, h), f"{fname}/arm[{an}]/match-sides",
-                    f"in the {an} arm the handler's (left, right) arguments are built from {[sorted(x) for x in sides]}; expected rule.match_left for the first and rule.match_right "
+            hs = [(o, s_) for k, o, s_ in p_.events if k == "call" and norm(o.func) == "rule.handler"]
+            if not hs:
+                continue
+            n_paths += 1
+            arm = True if G.implies(f, G.Atom("direct")) else (False if G.implies(f, G.Not(G.Atom("direct"))) else None)
+            if arm is None:
+                res[True]["undecided"] = res[False]["undecided"] = hs[0][0]
+                continue
+            r = res[arm]
+            o, sub = hs[-1]
+            r["node"] = o
+            a0, a1 = (sub.args + [None, None])[:2]
+            okc = all(isinstance(a_, ast.Call) and call_name(a_) in CT and len(a_.args) >= 2 for a_ in (a0, a1))
+            r.setdefault("sides", True)
+            r.setdefault("order", True)
+            r.setdefault("pair", True)
+            if not okc or len(hs) != 1:
+                r["sides"] = r["order"] = False
+                r["detail"] = f"handler called with ({norm(a0)[:40] if a0 is not None else None}, {norm(a1)[:40] if a1 is not None else None})"
+                continue
+            if not (norm(a0.args[0]) == "rule.match_left" and norm(a1.args[0]) == "rule.match_right"):
+                r["sides"] = False
+                r["detail"] = f"(left, right) arguments are built from ({norm(a0.args[0])}, {norm(a1.args[0])})"
+            d0, d1 = norm(a0.args[1]), norm(a1.args[1])
+            dev_left = d0 == "device" and d1 != "device"
+            dev_right = d1 == "device" and d0 != "device"
+            if not ((arm and dev_left) or ((not arm) and dev_right)):
+                r["order"] = False
+                r["detail2"] = f"the peers wrap ({d0}, {d1})"
+            mine, other = (a0, a1) if dev_left else (a1, a0)
+            pairs = [s_ for k, o2, s_ in p_.events if k == "call" and call_name(o2) == "Pair"]
+            for pr in pairs[:1]:
+                kw = {k.arg: k.value for k in pr.keywords}
+                tl, tc = norm(kw.get("local")) if kw.get("local") is not None else "", norm(kw.get("connected")) if kw.get("connected") is not None else ""
+                ok = norm(mine) in tl and norm(other) not in tl and norm(other) in tc and norm(mine) not in tc and "session" in tl and "session" in tc \
+                    and kw.get("device") is not None and norm(kw["device"]) == norm(other.args[1])
+                if not ok:
+                    r["pair"] = False
+            gave_up = any(k in ("raise", "continue") for k, _o, _s in p_.events) or (isinstance(p_.returned, ast.Constant) and p_.returned.value is None)
+            if not pairs and not gave_up:
+                r["pair"] = False
+        if not n_paths:
+            raise AnchorError(f"{fname}: no path reaches the handler call")
+        for arm in (True, False):
+            r = res[arm]
+            an = "direct" if arm else "reverse"
+            at = repo.loc(m, r.get("node", fn))
+            if "undecided" in r or "node" not in r:
+                c.violated("C15.R2", repo.loc(m, fn), f"{fname}/arm[{an}]/handler-args", f"no handler call on a path that decides rule.direct_order ({an})", key_text=f"handler-{arm}")
+                continue
+            c.check("C15.R2", r["sides"], at, f"{fname}/arm[{an}]/match-sides", f"in the {an} arm {r.get('detail', '')}; expected rule.match_left for the first and rule.match_right "
                     "for the second: the handler would see the other side's match groups", key_text=f"sides-{arm}")
-            got = [norm(h.args[0]), norm(h.args[1])]
-            want = [dv, ov] if arm else [ov, dv]
-            c.check("C15.R2", got == want, repo.loc(m, h), f"{fname}/arm[{an}]/handler-args",
-                    f"handler called with ({', '.join(got)}); in the {an} arm the device is the rule's {'left' if arm else 'right'} side, expected ({', '.join(want)})",
+            c.check("C15.R2", r["order"], at, f"{fname}/arm[{an}]/handler-args", f"in the {an} arm {r.get('detail2', r.get('detail', ''))}; the device is the rule's {'left' if arm else 'right'} side there",
                     key_text=f"handler-{arm}")
-        # DTO merges and Pair
-        pairs = [x for x in calls_in(fn) if call_name(x) == "Pair"]
-        if len(pairs) != 1:
-            raise AnchorError(f"{fname}: Pair(...) construction not found")
-        kw = {k.arg: k.value for k in pairs[0].keywords}
-
-        def merged_from(e):
-            out = set()
-            for call in pv.origin_calls(e, through_calls=False):
-                if call_name(call) == "merge":
-                    out |= {norm(a) for a in call.args[1:]}
-            return out
-        loc, con = merged_from(kw.get("local")), merged_from(kw.get("connected"))
-        ok = dv in loc and ov not in loc and ov in con and dv not in con and "session" in loc and "session" in con
-        c.check("C15.R2", ok, repo.loc(m, pairs[0]), f"{fname}/pair-roles", f"Pair.local is merged from {sorted(loc)} and Pair.connected from {sorted(con)}; expected `{dv}`+session / `{ov}`+session",
-                key_text="pair-roles")
-        c.check("C15.R2", norm(kw.get("device")) == other, repo.loc(m, pairs[0]), f"{fname}/pair-device", f"Pair.device is `{norm(kw.get('device'))}`, expected the other device `{other}`", key_text="pair-device")
+            c.check("C15.R2", r["pair"], at, f"{fname}/arm[{an}]/pair-roles", "Pair.local / Pair.connected / Pair.device are not (device's peer + session, other peer + session, other device)",
+                    key_text=f"pair-roles-{arm}")
 
 
 def r3(c):
